@@ -28,9 +28,33 @@ import (
 )
 
 func init() {
-	hlib.Register("c28run", c28Run)
-	hlib.Register("c28params", c28Params)
-	hlib.Register("c28opts", c28Opts)
+	hlib.Register("c28run", withSide(c28Run))
+	hlib.Register("c28params", withSide(c28Params))
+	hlib.Register("c28opts", withSide(c28Opts))
+}
+
+// withSide: hlib buffers the results on stdout and flushes at exit, so a process killed by a
+// panic in a goroutine loses the results of the vectors it had already finished. When
+// VERIF_SIDE names a file, every result is also appended to it immediately (one JSON per
+// line, unbuffered), which lets the driver attribute the crash to the right vector.
+func withSide(fn hlib.EngineFn) hlib.EngineFn {
+	var side *os.File
+	if p := os.Getenv("VERIF_SIDE"); p != "" {
+		side, _ = os.OpenFile(p, os.O_WRONLY|os.O_CREATE|os.O_APPEND, 0o644)
+	}
+	return func(raw json.RawMessage, args []string) (any, error) {
+		res, err := fn(raw, args)
+		if side != nil {
+			var b []byte
+			if err != nil {
+				b, _ = json.Marshal(map[string]any{"harness_error": err.Error()})
+			} else {
+				b, _ = json.Marshal(res)
+			}
+			side.Write(append(b, '\n'))
+		}
+		return res, err
+	}
 }
 
 type c28Vec struct {
@@ -108,63 +132,80 @@ func runGuarded(to time.Duration, cancel context.CancelFunc, fn func() error) (e
 	}
 }
 
+// procDir is the working directory shared by the programs of one harness process; it is
+// emptied after a program that left something behind and replaced after a hang.
+var procDir string
+
+func workDir() string {
+	if procDir == "" {
+		procDir = hlib.FreshDir()
+	}
+	return procDir
+}
+
+func cleanWorkDir(replace bool) {
+	if procDir == "" {
+		return
+	}
+	if replace {
+		procDir = "" // a hung program may still write there; leave it to the scratch cleanup
+		return
+	}
+	if ents, err := os.ReadDir(procDir); err != nil || len(ents) > 0 {
+		os.RemoveAll(procDir)
+		os.Mkdir(procDir, 0o755)
+	}
+}
+
 func c28Run(raw json.RawMessage, _ []string) (any, error) {
 	var v c28Vec
 	if err := json.Unmarshal(raw, &v); err != nil {
 		return nil, err
 	}
 	var res c28Res
-	var file *syntax.File
-	// the parser is part of "never panics" too
-	_, pan, stack, _, _ := runGuarded(5*time.Second, func() {}, func() error {
-		f, lang, err := parseAny(hlib.Unlatin1(v.Src), v.Lang)
-		if err != nil {
-			res.ParseError = err.Error()
-			return nil
-		}
-		file, res.Lang = f, lang
-		return nil
-	})
-	if pan != nil {
-		res.Panic, res.Stack, res.Status = "parser: "+fmt.Sprint(pan), stack, -4
-		return res, nil
-	}
-	if file == nil {
-		res.Status = -1
-		return res, nil
-	}
-	dir := hlib.FreshDir()
-	defer os.RemoveAll(dir)
+	dir := workDir()
 	var out, errb bytes.Buffer
-	env := expand.ListEnviron("PATH=/nonexistent", "HOME="+dir, "TMPDIR="+dir, "LC_ALL=C.UTF-8", "PWD="+dir)
-	var stdin *strings.Reader
-	opts := []interp.RunnerOption{interp.Dir(dir), interp.Env(env), interp.ExecHandlers(noForkExec),
-		interp.Params(append([]string{"--"}, v.Params...)...)}
-	if v.Stdin != nil {
-		stdin = strings.NewReader(string(hlib.Unlatin1(*v.Stdin)))
-		opts = append(opts, interp.StdIO(stdin, &out, &errb))
-	} else {
-		opts = append(opts, interp.StdIO(nil, &out, &errb))
-	}
-	r, err := interp.New(opts...)
-	if err != nil {
-		res.RunError, res.Status = "New: "+err.Error(), -2
-		return res, nil
-	}
 	to := time.Duration(v.TimeoutMs) * time.Millisecond
 	if to == 0 {
 		to = 4 * time.Second
 	}
 	ctx, cancel := context.WithCancel(context.Background())
 	defer cancel()
-	runErr, pan, stack, timeout, hang := runGuarded(to, cancel, func() error { return r.Run(ctx, file) })
+	stage := "parser: "
+	// parser, New and Run under one recover(): the parser is part of "never panics" too
+	runErr, pan, stack, timeout, hang := runGuarded(to, cancel, func() error {
+		file, lang, err := parseAny(hlib.Unlatin1(v.Src), v.Lang)
+		if err != nil {
+			res.ParseError = err.Error()
+			res.Status = -1
+			return nil
+		}
+		res.Lang = lang
+		stage = "New: "
+		env := expand.ListEnviron("PATH=/nonexistent", "HOME="+dir, "TMPDIR="+dir, "LC_ALL=C.UTF-8", "PWD="+dir)
+		opts := []interp.RunnerOption{interp.Dir(dir), interp.Env(env), interp.ExecHandlers(noForkExec),
+			interp.Params(append([]string{"--"}, v.Params...)...)}
+		if v.Stdin != nil {
+			opts = append(opts, interp.StdIO(strings.NewReader(string(hlib.Unlatin1(*v.Stdin))), &out, &errb))
+		} else {
+			opts = append(opts, interp.StdIO(nil, &out, &errb))
+		}
+		r, err := interp.New(opts...)
+		if err != nil {
+			res.RunError, res.Status = "New: "+err.Error(), -2
+			return nil
+		}
+		stage = ""
+		return r.Run(ctx, file)
+	})
 	res.Timeout, res.Hang = timeout, hang
 	if hang {
 		res.Status = -3
+		cleanWorkDir(true)
 		return res, nil // buffers may still be written to; do not touch them
 	}
 	if pan != nil {
-		res.Panic, res.Stack, res.Status = fmt.Sprint(pan), stack, -4
+		res.Panic, res.Stack, res.Status = stage+fmt.Sprint(pan), stack, -4
 	} else if runErr != nil {
 		if es, ok := runErr.(interp.ExitStatus); ok {
 			res.Status = int(es)
@@ -172,6 +213,7 @@ func c28Run(raw json.RawMessage, _ []string) (any, error) {
 			res.RunError, res.Status = runErr.Error(), -2
 		}
 	}
+	cleanWorkDir(timeout)
 	res.Out = hlib.Latin1(out.Bytes())
 	res.Err = strings.ReplaceAll(hlib.Latin1(errb.Bytes()), dir, "D0")
 	if len(res.Out) > 2000 {
